@@ -1,5 +1,7 @@
 """C03 extra (thorough tier): unbounded evidence for the conservation laws.  spec/PoolCounters.tla (counter
-abstraction of the instance loop, N, T, A unconstrained naturals) is checked with Apalache as an inductive invariant:
+abstraction of the instance loop with one SHARED profile, incl. discard_overflow; N, T, A unconstrained naturals) and
+spec/PoolCountersPI.tla (PER-INSTANCE profiles, incl. discard_overflow; N, TT = created x tokens, A unconstrained) are
+each checked with Apalache as an inductive invariant:
 Init => IndInv, IndInv /\\ Next => IndInv', IndInv => Accounting, plus a negative control (token conservation alone
 must NOT imply Accounting).  A missing / stalling tool is a note in the evidence, never a verdict; a refuted
 obligation is a defect of the model (machinery failure)."""
@@ -17,17 +19,33 @@ OBLIGATIONS = [
 ]
 
 
+MODULES = [  # (module, TLC config with small constants, key in the evidence)
+    ("PoolCounters", "PoolCounters_tlc.cfg", "apalache_inductive_invariant"),
+    ("PoolCountersPI", "PoolCountersPI_tlc.cfg", "apalache_inductive_invariant_per_instance_profiles"),
+]
+
+
 def run():
     exe = shutil.which("apalache-mc")
     if not exe:
         return {"apalache": "not installed: skipped"}
+    from concurrent.futures import ThreadPoolExecutor
+    with ThreadPoolExecutor(max_workers=2) as ex:
+        res = list(ex.map(lambda m: run_module(exe, *m), MODULES))
+    out = {}
+    for r in res:
+        out.update(r)
+    return out
+
+
+def run_module(exe, module, tlc_cfg, key):
     d = vlib.scratch("verif-apa-")
-    shutil.copyfile(os.path.join(vlib.SPEC, "PoolCounters.tla"), os.path.join(d, "PoolCounters.tla"))
+    shutil.copyfile(os.path.join(vlib.SPEC, module + ".tla"), os.path.join(d, module + ".tla"))
     out = {}
     t0 = time.time()
     for name, args, must_hold in OBLIGATIONS:
         try:
-            p = subprocess.run(["timeout", "300", exe, "check", "--cinit=CInit"] + args + ["PoolCounters.tla"], cwd=d,
+            p = subprocess.run(["timeout", "300", exe, "check", "--cinit=CInit"] + args + [module + ".tla"], cwd=d,
                                stdout=subprocess.PIPE, stderr=subprocess.STDOUT, text=True, timeout=330)
         except subprocess.TimeoutExpired:
             out[name] = "tool timeout (no result)"
@@ -41,13 +59,14 @@ def run():
             continue
         out[name] = res
         if must_hold and res == "counterexample":
-            raise vlib.MachineryError("Apalache refutes %s of PoolCounters.tla: the abstraction or its invariant is wrong\n%s"
-                                      % (name, p.stdout[-2000:]))
+            raise vlib.MachineryError("Apalache refutes %s of %s.tla: the abstraction or its invariant is wrong\n%s"
+                                      % (name, module, p.stdout[-2000:]))
         if not must_hold and res == "holds":
-            raise vlib.MachineryError("Apalache negative control %s found no counterexample: the obligation is vacuous" % name)
+            raise vlib.MachineryError("Apalache negative control %s of %s.tla found no counterexample: the obligation is vacuous"
+                                      % (name, module))
     out["seconds"] = round(time.time() - t0, 1)
     # the same module on small constants with TLC (both tools exercise the abstraction)
-    r = vlib.tlc("PoolCounters", "PoolCounters_tlc.cfg", workers=2, timeout=300, deadlock=False)
-    vlib.tlc_must_pass(r, "PoolCounters_tlc.cfg")
+    r = vlib.tlc(module, tlc_cfg, workers=2, timeout=300, deadlock=False)
+    vlib.tlc_must_pass(r, tlc_cfg)
     out["tlc_states_small_constants"] = r.distinct
-    return {"apalache_inductive_invariant": out}
+    return {key: out}
